@@ -191,25 +191,10 @@ package virtual
 // Per-call ledgers: poolclosed(x): Close calls on pool file x; shareacq(f):
 // acquireShareAccessLocked calls on f; readerclosed(r) / readerowned(r): a
 // frozen reader was closed / handed over to a CAS buffer that closes it.
-//@ ghost map poolclosed(ref) int zero
+// (poolclosed, readerclosed, readerowned and the bb-storage file stubs are
+// declared in /verif/stubs/filesystem.spec.)
 //@ ghost map shareacq(ref) int zero
-//@ ghost map readerclosed(ref) int zero
-//@ ghost map readerowned(ref) int zero
 
-//@ stub (github.com/buildbarn/bb-storage/pkg/filesystem.FileReadWriter).Close
-//@   modifies poolclosed[arg0]
-//@   ensures poolclosed(arg0) == old(poolclosed(arg0)) + 1
-//@ stub (github.com/buildbarn/bb-storage/pkg/filesystem.FileReader).Close
-//@   modifies readerclosed[arg0]
-//@   ensures readerclosed(arg0) == old(readerclosed(arg0)) + 1
-//@ stub github.com/buildbarn/bb-storage/pkg/blobstore/buffer.NewValidatedBufferFromReaderAt
-//@   modifies readerowned[arg0]
-//@   ensures readerowned(arg0) == old(readerowned(arg0)) + 1 && r0 != nil
-//@ stub (github.com/buildbarn/bb-storage/pkg/filesystem.FileReadWriter).WriteAt
-//@   pure
-//@   ensures 0 <= r0 && r0 <= len(arg1)
-//@ stub (github.com/buildbarn/bb-storage/pkg/filesystem.FileReadWriter).Truncate
-//@   pure
 //@ stub (pkg/filesystem/virtual.NamedAttributes).Release
 //@   pure
 
